@@ -97,6 +97,9 @@ class SolverWrapper:
     optimization_sense = "minimize"
     infeasible_status = "kInfeasible"
     use_also_custom_timeout = False
+    # HiGHS uses one scheduler per process, initialised with the thread count of the first run;
+    # a later run asking for a different thread count fails unless the scheduler is reset.
+    _highs_scheduler_threads = None
 
     # We try to map gurobi status codes to HiGHS status codes when there is a clear correspondence
     gurobi_status_to_highs = {
@@ -517,6 +520,12 @@ class SolverWrapper:
         # Otherwise, we call the function with a timeout
         # Apply any queued bound updates right before solving
         self._apply_pending_bound_updates()
+
+        if self.external_solver == "highs":
+            threads = self.solver.getOptionValue("threads")[1]
+            if SolverWrapper._highs_scheduler_threads is not None and SolverWrapper._highs_scheduler_threads != threads:
+                highspy.Highs.resetGlobalScheduler(True)
+            SolverWrapper._highs_scheduler_threads = threads
 
         if self.time_limit == float('inf') or (not self.use_also_custom_timeout):
             self.solver.optimize()
